@@ -244,6 +244,42 @@ pub fn run(tier: Tier) -> (Stats, VioSet) {
                             }
                             cx.units(&u);
                         }
+                        // ordered pairs of class representatives planted side by side (what follows
+                        // a high surrogate / a non-Latin1 unit / an RTL unit matters to the scanners)
+                        if pos + 1 < *len {
+                            const REPS: [u32; 12] = [0x61, 0xE9, 0x101, 0x590, 0x5D0, 0x200F, 0x3042, 0xFB1D, 0x1F600, 0x10800, 0xD800, 0xDC00];
+                            for &a in &REPS {
+                                for &b in &REPS {
+                                    let mut u = plain16.clone();
+                                    let mut rest: Vec<u16> = vec![];
+                                    for &c in &[a, b] {
+                                        if c >= 0x10000 {
+                                            let x = c - 0x10000;
+                                            rest.push(0xD800 + (x >> 10) as u16);
+                                            rest.push(0xDC00 + (x & 0x3FF) as u16);
+                                        } else {
+                                            rest.push(c as u16);
+                                        }
+                                    }
+                                    u.splice(pos..pos + 2, rest);
+                                    cx.units(&u);
+                                    // UTF-8: scalar values only
+                                    if !(0xD800..0xE000).contains(&a) && !(0xD800..0xE000).contains(&b) {
+                                        let mut sb = String::new();
+                                        for i in 0..*len {
+                                            if i == pos {
+                                                sb.push(char::from_u32(a).unwrap());
+                                            } else if i == pos + 1 {
+                                                sb.push(char::from_u32(b).unwrap());
+                                            } else {
+                                                sb.push_str(f);
+                                            }
+                                        }
+                                        cx.bytes(sb.as_bytes());
+                                    }
+                                }
+                            }
+                        }
                         // surrogates (UTF-16) and invalid UTF-8 patterns
                         for s16 in [0xD800u16, 0xD802, 0xD803, 0xD83A, 0xD83B, 0xDBFF, 0xDC00, 0xDFFF] {
                             let mut u = plain16.clone();
